@@ -470,7 +470,8 @@ def check_param_icall(prog, rep, inplace):
     caller and `matvec`/`_project` follow the linear-operator protocol (the operator may choose
     the leg order of the vector it is given; values and labels stay): both are out of scope."""
     n = 0
-    for rel in (MPS, MPO):
+    for rel in (MPS, MPO, 'tenpy/algorithms/exact_diag.py', 'tenpy/networks/uniform_mps.py',
+                'tenpy/networks/purification_mps.py'):
         m = prog.module(rel)
         own = Own(m, inplace)
         for q, f in m.functions.items():
